@@ -2,6 +2,7 @@
 //! Serves C01, C03 (clean-shutdown part), C04, C06, C07, C08, C09, C10, C11 (deterministic
 //! variant), C14.
 
+mod bulk;
 mod fsck_glue;
 mod hist;
 mod profiles;
